@@ -257,6 +257,8 @@ class H2Server(TimerMixin, Peer):
 
         self.events = _copy.deepcopy(list(self.hcfg.get("events", ())))
         self.goaway_sent = False
+        self.gated = False
+        self.held = b""
         self.goaway_last = 0
         self.max_processed = 0
         self.cur_sid = 0
@@ -305,6 +307,7 @@ class H2Server(TimerMixin, Peer):
             # bookkeeping is still fed the full key set, see on_open()
             import hyperframe.frame as hf
 
+            self._ungate(now)
             self._flush(now)
             self.c.update_settings({SETTING_NAMES[k]: v for k, v in full.items()})
             self.c.clear_outbound_data_buffer()
@@ -323,8 +326,18 @@ class H2Server(TimerMixin, Peer):
 
     def _flush(self, now):
         d = self.c.data_to_send()
+        if self.gated:
+            self.held += d      # withheld until the client has acknowledged the PING
+            return
+        if self.held:
+            d, self.held = self.held + d, b""
         if d and not self.closed:
             self.wire.push(now + self.hcfg.get("lat", 0.0005), d)
+
+    def _ungate(self, now):
+        if self.gated:
+            self.gated = False
+            self._flush(now)
 
     def _noise(self, now, sid, plan):
         """Frames a server may legally send in the middle of a response and that carry no
@@ -367,6 +380,7 @@ class H2Server(TimerMixin, Peer):
 
     def _close(self, t, kind=EOF):
         if not self.closed:
+            self._ungate(t)      # what was withheld goes out before the close
             self.closed = True
             self.wire.push(t, kind)
             self.wire.peer_closed = True
@@ -402,8 +416,15 @@ class H2Server(TimerMixin, Peer):
                 if mcs is not None and mcs < len(self.ledger.open_srv):
                     w.probes["h2_settings_decrease_inflight"] += 1
             elif do == "ping":
+                self._flush(now)
                 self.c.ping(b"simping!")
                 w.probes["h2_ping"] += 1
+                if ev.get("gate") and not self.gated:
+                    # a server may probe the round trip and send nothing further until
+                    # the PING has been acknowledged (unusual, legal)
+                    self._flush(now)
+                    self.gated = True
+                    w.probes["h2_ping_gate"] += 1
             elif do == "goaway":
                 sids = sorted(self.ledger.streams)
                 mode = ev.get("last", "equal")
@@ -428,6 +449,7 @@ class H2Server(TimerMixin, Peer):
                 # server state machine keeps serving the streams <= last_stream_id
                 import hyperframe.frame as hf
 
+                self._ungate(now)
                 self._flush(now)
                 f = hf.GoAwayFrame(0)
                 f.last_stream_id = last
@@ -532,6 +554,10 @@ class H2Server(TimerMixin, Peer):
                 self.ledger.server_ended(ev.stream_id)
             elif isinstance(ev, h2.events.ConnectionTerminated):
                 pass
+            elif isinstance(ev, h2.events.PingAckReceived):
+                if self.gated:
+                    self._ungate(now)
+                    self._pump(now)
         self._check_counted_events(now)
         self._flush(now)
 
@@ -727,16 +753,26 @@ class H2Server(TimerMixin, Peer):
                             self._truncate(now, sid, plan)
                             return
                     pad = plan.get("h2_pad", 0)
+                    # the last DATA frame carries END_STREAM itself (what most servers do)
+                    # or is followed by an empty DATA frame that does
+                    end_now = (k == rem and trunc is None
+                               and self.w.rng(f"h2end/{self.wire.id}").random() < 0.5)
                     if pad and k + pad + 1 <= min(win, self.c.max_outbound_frame_size):
-                        self.c.send_data(sid, body[p["pos"]:p["pos"] + k], pad_length=pad)
+                        self.c.send_data(sid, body[p["pos"]:p["pos"] + k], pad_length=pad,
+                                         end_stream=end_now)
                         self.fc_sent += k + pad + 1
                     else:
-                        self.c.send_data(sid, body[p["pos"]:p["pos"] + k])
+                        self.c.send_data(sid, body[p["pos"]:p["pos"] + k], end_stream=end_now)
                         self.fc_sent += k
                     p["pos"] += k
                     rem -= k
                     burst -= 1
                     progress = True
+                    if end_now:
+                        self.pending.pop(sid, None)
+                        self.ledger.server_ended(sid)
+                        rem = -1
+                        break
                     if rem > 0:
                         self._noise(now, sid, plan)
                     if gap and rem > 0:
